@@ -10,13 +10,16 @@
      driver/src/modules/loader/exports.rs     (collect_exports = pub fn / pub let; register_exports)
      driver/src/modules/loader/needs.rs       (get_load_result, get_module_alias, resolve_path_with_fallback)
      driver/src/modules/loader/resolution.rs + modules/src/resolution/patterns.rs
-                                              (dir/p.aelys first, then dir/p/mod.aelys, relative to base_dir,
-                                               then the same relative to the entry file's directory)
+                                              (the manifest's explicit path if any; else dir/p.aelys, then
+                                               dir/p/mod.aelys, relative to base_dir, then the same
+                                               relative to the entry file's directory; canonicalised,
+                                               contained in base_root)
      driver/src/modules/needs.rs              (load_modules_for_program: the entry's name sets and the
                                                SymbolConflict check)
    Identifiers (path segments, definition names, aliases) are numbers; the harness prints
    identifier k as "n<k>".  A file is named by its path components below the entry's directory
-   without the extension: [a; x] is a/x.aelys, [a; x; MODSEG] is a/x/mod.aelys.
+   without the extension: [a; x] is a/x.aelys, [a; x; MODSEG] is a/x/mod.aelys.  Symlinks and the
+   explicit paths of the entry's aelys.toml are part of the tree (fsys).
    Definitions only; proofs are in Proofs/ModulesProofs.v. *)
 From Coq Require Import NArith Bool List.
 Import ListNotations.
@@ -38,7 +41,15 @@ Inductive form :=
 Record import := { i_path : key; i_form : form }.
 Record def := { d_name : ident; d_pub : bool }.
 Record module := { m_imports : list import; m_defs : list def }.
-Definition fsys := list (fpath * module).
+(* the directory tree: real files, symlinks (a file's or a directory's path -> the real path it
+   points to) and the explicit paths of the entry's aelys.toml manifest ([module.<dotted name>]
+   path = "..."), each relative to the directory of whichever file contains the `needs` *)
+Inductive pseg := PS (x : ident) | PUp | PCur.       (* "x", "..", "." *)
+Record fsys := mkfs {
+  files : list (fpath * module);
+  links : list (list ident * list ident);
+  hints : list (key * list pseg)
+}.
 
 (* ---------------------------------------------------------------- small list utilities *)
 Fixpoint key_eqb (a b : key) : bool :=
@@ -60,28 +71,91 @@ Fixpoint lookup {A} (k : key) (l : list (key * A)) : option A :=
   | (k', v) :: r => if key_eqb k k' then Some v else lookup k r
   end.
 
-Definition find_file (fs : fsys) (f : fpath) : option module := lookup f fs.
+Definition find_file (fs : fsys) (f : fpath) : option module := lookup f (files fs).
 
 Definition dir_of (f : fpath) : list ident := removelast f.
 Definition last_seg (p : key) : ident := last p 0.
 
 (* ---------------------------------------------------------------- resolution *)
-(* search_with_patterns: Direct{aelys} then ModFile{aelys}, below a directory.  (Native patterns and
-   the manifest are outside the model; root containment always holds without symlinks.) *)
-Definition resolve_in (fs : fsys) (dir : list ident) (p : key) : option fpath :=
-  match find_file fs (dir ++ p) with
-  | Some _ => Some (dir ++ p)
-  | None => match find_file fs (dir ++ p ++ [MODSEG]) with
-            | Some _ => Some (dir ++ p ++ [MODSEG])
-            | None => None
-            end
+(* Path::canonicalize: symlinks resolved, left to right (the generator's links do not nest deeper
+   than the fuel) *)
+Fixpoint strip_prefix (pre p : list ident) : option (list ident) :=
+  match pre, p with
+  | [], _ => Some p
+  | x :: pre', y :: p' => if x =? y then strip_prefix pre' p' else None
+  | _ :: _, [] => None
+  end.
+Definition is_prefix (pre p : list ident) : bool :=
+  match strip_prefix pre p with Some _ => true | None => false end.
+Fixpoint find_link (ls : list (list ident * list ident)) (p : list ident) : option (list ident) :=
+  match ls with
+  | [] => None
+  | (src, tgt) :: r =>
+      match strip_prefix src p with
+      | Some rest => Some (tgt ++ rest)
+      | None => find_link r p
+      end
+  end.
+Fixpoint canon_n (n : nat) (ls : list (list ident * list ident)) (p : list ident) : list ident :=
+  match n with
+  | O => p
+  | S k => match find_link ls p with Some p' => canon_n k ls p' | None => p end
+  end.
+Definition canon (fs : fsys) (p : list ident) : list ident := canon_n 4 (links fs) p.
+
+Definition dir_exists (fs : fsys) (d : list ident) : bool :=
+  existsb (fun fm => is_prefix d (fst fm) && negb (key_eqb d (fst fm))) (files fs).
+
+(* canonicalize_if_exists: the file must exist and its canonical path must lie below base_root;
+   outside is an error that stops the search (RStop), absent lets it continue (RMissing) *)
+Inductive rres := RFound (f : fpath) | RStop | RMissing.
+Definition try_path (fs : fsys) (rootdir : list ident) (c : list ident) : rres :=
+  match find_file fs c with
+  | Some _ => if is_prefix rootdir c then RFound c else RStop
+  | None => RMissing
   end.
 
-(* resolve_module_path: next to the importing file, then next to the entry file (root) *)
-Definition resolve_direct (fs : fsys) (root base : list ident) (p : key) : option fpath :=
+(* search_with_patterns: Direct{aelys} then ModFile{aelys}, below a directory.  (Native patterns
+   are outside the model.) *)
+Definition resolve_in (fs : fsys) (dir : list ident) (p : key) : rres :=
+  match try_path fs dir (canon fs (dir ++ p)) with
+  | RMissing => try_path fs dir (canon fs (dir ++ p ++ [MODSEG]))
+  | r => r
+  end.
+Definition to_opt (r : rres) : option fpath := match r with RFound f => Some f | _ => None end.
+
+(* next to the importing file, then next to the entry file (root) *)
+Definition search (fs : fsys) (root base : list ident) (p : key) : option fpath :=
   match resolve_in fs base p with
-  | Some f => Some f
-  | None => if key_eqb base root then None else resolve_in fs root p
+  | RFound f => Some f
+  | _ => if key_eqb base root then None else to_opt (resolve_in fs root p)
+  end.
+
+(* base_dir.join(explicit path): ".." is the physical parent, symlinks are followed *)
+Fixpoint follow (fs : fsys) (cur : list ident) (ex : list pseg) : option (list ident) :=
+  match ex with
+  | [] => None
+  | [PS x] => Some (canon fs (cur ++ [x]))
+  | PS x :: r => let d := canon fs (cur ++ [x]) in if dir_exists fs d then follow fs d r else None
+  | PUp :: r => match cur with [] => None | _ :: _ => follow fs (removelast cur) r end
+  | PCur :: r => follow fs cur r
+  end.
+
+(* resolve_module_path: the manifest's explicit path for this dotted name if that file exists,
+   else the search *)
+Definition resolve_direct (fs : fsys) (root base : list ident) (p : key) : option fpath :=
+  match lookup p (hints fs) with
+  | Some ex =>
+      match follow fs base ex with
+      | Some c =>
+          match try_path fs base c with
+          | RFound f => Some f
+          | RStop => None
+          | RMissing => search fs root base p
+          end
+      | None => search fs root base p
+      end
+  | None => search fs root base p
   end.
 
 (* resolve_path_with_fallback: the path itself, else (when it has >1 segment) its parent with the
@@ -364,7 +438,7 @@ Definition run (fs : fsys) (entry : fpath) (fuel : nat) : res (list event) :=
   end.
 
 (* fuel that always suffices (Proofs: no_divergence): every stack entry is a distinct file *)
-Definition fuel_bound (fs : fsys) : nat := S (S (length fs)).
+Definition fuel_bound (fs : fsys) : nat := S (S (length (files fs))).
 
 (* ---------------------------------------------------------------- what a top level can name *)
 Inductive spelling := SBare (n : ident) | SQual (q n : ident).    (* n  |  q.n *)
